@@ -393,7 +393,12 @@ def adapter(ctx):
                         "%s on every path (no field of the message decides whether it is yielded)" % w))
     for k, gots in rows.items():
         for got in sorted(map(str, gots)):
-            if k not in want and got not in ("Ready(None)",):
+            if k[0] is None and got != "?":
+                # a result that was not derived from a poll of the channel on this path (a fast path on `size_hint()`, a flag):
+                # "closed" is not "closed and drained", and only the channel knows
+                out.append(Inst("ADAPTER", "inner=%s/%s/%s:unpolled" % k, False, b.site(0), "returns %s on a path that does not poll the channel" % got,
+                                "every result of poll_next is the channel's own answer to a poll"))
+            elif k not in want and got not in ("Ready(None)",):
                 out.append(Inst("ADAPTER", "inner=%s/%s/%s:unexpected" % k, False, b.site(0), "returns %s" % got, "Ready(None) for anything that is not a delivered PUBLISH"))
     return out
 
